@@ -151,11 +151,12 @@ func randomRun(c *Ctx, n int) (*Run, map[string]string) {
 	if !signResp && !signAssert && !signAR && c.Rng.Intn(4) != 0 {
 		signAssert = true
 	}
-	key["layout"] = fmt.Sprintf("resp=%v,assert=%v,enc=%v,entry=%d,ar=%v", signResp, signAssert, enc, entry, signAR)
+	signSome := nassert > 1 && c.Rng.Intn(2) == 0 // only some of several assertions carry their own signature
+	key["layout"] = fmt.Sprintf("resp=%v,assert=%v,enc=%v,entry=%d,ar=%v,some=%v", signResp, signAssert, enc, entry, signAR, signSome)
 	var kids []*Node
 	for j := range specs {
 		a := buildAssertion(specs[j])
-		if signAssert {
+		if signAssert && (!signSome || c.Rng.Intn(2) == 0) {
 			if _, ok := a.Attr("ID"); ok {
 				SignInto(a, signer)
 			}
@@ -172,7 +173,7 @@ func randomRun(c *Ctx, n int) (*Run, map[string]string) {
 	}
 	run := &Run{Cfg: cfg, IDs: ids, Now: now, Cur: cur, Entry: entry, Doc: r}
 	if entry == 1 {
-		arIRT := pick(c, sp("resolve-9"), sp("resolve-9"), sp("resolve-9"), sp("resolve-8"), nil)
+		arIRT := pick(c, sp("resolve-9"), sp("resolve-9"), sp("resolve-9"), sp("resolve-9"), sp("resolve-8"), nil, sp("Resolve-9"), sp("RESOLVE-9"))
 		ars := RespSpec{Tag: "ArtifactResponse", ID: "ar-" + tag, IRT: arIRT, Issue: sp(fmtMS(N)), Issuer: sp(cfg.IdpEntity), Status: sp(statusSuccess)}
 		switch c.Rng.Intn(8) {
 		case 0:
